@@ -159,7 +159,7 @@ def judge(case, rec):
     def cmp(na, nb, transpose, tag):
         a, b = sA[na], sB[nb]
         rec.compared()
-        if not _pair_ok(a, b, transpose):
+        if not _pair_ok(a, b, transpose) and not (_is_root(na) and _roots_ok(a, b, transpose)):
             sig = "pair-%s" % na
             if na in ("rows_margin_proportion", "columns_margin_proportion") and \
                     (dims[-1].is_array or dims[-2].is_array):
@@ -203,6 +203,33 @@ def judge(case, rec):
             rec.compared()
             if not _arr_eq(np.asarray(getattr(ma, x)), np.asarray(getattr(mb, y)).T):
                 rec.violation("min_base_size_mask.%s vs transposed %s" % (x, y), "pair-mask")
+
+
+def _is_root(name):
+    """square roots of a variance (std-dev / std-err / MoE families)"""
+    return any(t in name for t in ("std_dev", "std_err", "_moe", "stddev", "stderr"))
+
+
+def _roots_ok(a, b, transpose):
+    """With weights that are not exactly representable a variance of 0 comes out as +-1e-16
+    depending on the order of summation - which transposition changes - and its root as 0 or
+    1e-8: tiny roots are compared in the variance domain."""
+    try:
+        aa, bb = np.asarray(a, dtype=float), np.asarray(b, dtype=float)
+    except (TypeError, ValueError):
+        return False
+    if transpose is None:
+        transpose = aa.ndim == 2
+    if transpose and bb.ndim == 2:
+        bb = bb.T
+    if aa.shape != bb.shape:
+        return False
+    for x, y in zip(aa.ravel().tolist(), bb.ravel().tolist()):
+        if _eq(x, y):
+            continue
+        if np.isnan(x) or np.isnan(y) or x < 0 or y < 0 or abs(x * x - y * y) > 1e-12:
+            return False
+    return True
 
 
 def _pair_ok(a, b, transpose):
